@@ -47,7 +47,7 @@ fn link(edges: &mut [ActiveEdge], n: usize) -> Option<NonNull<ActiveEdge>> {
     head
 }
 
-// @ob id=K.scan_edges props=C01 kind=bounded:edges=3 tier=quick timeout=900 fns=Rasterizer::scan_edges
+// @ob id=K.scan_edges props=C01 kind=bounded:edges=3 tier=quick timeout=1800 fns=Rasterizer::scan_edges
 // @+ desc="scan_edges on a sorted active list of 3 edges with symbolic 16.16 x and winding ±1, both winding rules: the emitted spans are exactly the maximal runs between consecutive edges on which the running winding sum is inside (odd for EvenOdd, non-zero for NonZero), from round_q(prev.fullx) (0 for a run entered left of the surface) to round_q(e.fullx), round_q(x)=(x+0x2000)>>14; edges with fullx<0 contribute winding only; nothing is emitted for runs starting at or beyond the width; every span has x1<=x2 and is on row cur_y"
 #[kani::proof]
 #[kani::unwind(12)]
@@ -124,7 +124,7 @@ fn all_buckets_empty_except(r: &Rasterizer, keep: i32) -> bool {
     ok
 }
 
-// @ob id=K.add_edge_line props=C01,C07,C10 kind=bounded:y_top>=-16 tier=quick timeout=900 fns=Rasterizer::add_edge
+// @ob id=K.add_edge_line props=C01,C07,C10 kind=bounded:y_top>=-16 tier=quick timeout=1800 fns=Rasterizer::add_edge
 // @+ desc="add_edge for a line with quarter-grid end points (x in ±64 px, y in -4..+20 px, surface 4x4): top/bottom ordering, winding = +1 if drawn downwards else -1, (x2,y2) = bottom end; horizontal, wholly-above and wholly-below edges leave no trace (no bucket, bounds unchanged); otherwise the edge is linked into bucket max(y_top,0) only, fullx = (x_top<<14) + max(0,-y_top)*slope, slope = trunc((dx<<14)/dy) stated by multiplication (|slope*dy| <= |dx<<14| < |slope*dy| + dy, same sign), shift = 0, and the bounds grow to cover the edge: top<=y_top>>2, bottom>=(y_bot+3)>>2, left<=min x>>2, right>=(max x+3)>>2; an edge clipped away after stepping above the surface is dropped"
 #[kani::proof]
 #[kani::unwind(18)]
